@@ -293,12 +293,24 @@ impl Peer {
             return Err(Error::from(ErrorKind::InvalidInput));
         }
 
-        if self.public_key.is_some() {
-            assert_eq!(
-                response.public_key,
-                self.public_key.unwrap(),
-                "This peer instance is to handle a peer with a different public key"
+        if response.public_key == wallet.public_key {
+            // our own signature over our own challenge, reflected back to us
+            warn!(
+                "peer : {:?} answered the handshake with our own public key",
+                self.index
             );
+            self.mark_as_disconnected(current_time);
+            io_handler.disconnect_from_peer(self.index).await?;
+            return Err(Error::from(ErrorKind::InvalidInput));
+        }
+        if self.public_key.is_some() && self.public_key.unwrap() != response.public_key {
+            warn!(
+                "peer : {:?} is already known under a different public key",
+                self.index
+            );
+            self.mark_as_disconnected(current_time);
+            io_handler.disconnect_from_peer(self.index).await?;
+            return Err(Error::from(ErrorKind::InvalidInput));
         }
 
         self.block_fetch_url = response.block_fetch_url;
